@@ -512,6 +512,8 @@ def check_C16(tier):
     # 4. every consumer named in the property, on every same-kind pair: WHERE, DISTINCT, GROUP BY (grouping + order), MIN/MAX, array_unique
     engine_run(c, "pairs", "PairMenu", lines="LinesPair", maxlines=2, maxfiles=1, modes=("incr",), tdefs=("plain",),
                invs=["TypeOK", "IncrRefinesSem", "IncrSelectRefinesSem"], props=(), module="MC_EnginePairs")
+    # 4b. the same order where an operand is written as text (a TIMESTAMP against a text literal on either side of every operator) and across TIMESTAMP / INTERVAL functions
+    engine_run(c, "calendar-compare", "CalMenu", lines="LinesCal", maxlines=1, maxfiles=1, modes=("incr",), tdefs=("plain",), invs=["TypeOK", "IncrSelectRefinesSem"], props=())
     # 5. impl -> spec: random values
     for i in range(3 if t else 1):
         tp = vh_trace("values", 6000 if t else 2500, "values%d" % i, seed_=vlib.seed() * 100 + i, env_extra={"TZ": "UTC"})
